@@ -32,14 +32,15 @@ def mix(h, i):
 
 
 LEAVES = {
-    "Int": [0, 1, -7, 42, 2147483646, "12"],
+    "Int": [0, 1, -7, 42, 2147483646, "12", 2147483647, -2147483648],
     "Float": [{"$float": "0.5"}, {"$float": "-2.25"}, {"$float": "3.0"}, {"$float": "1000.0"}, 2],
     "String": ["", "a", "x y", "q\"uote", True, 5],
     "Boolean": [True, False, 1, 0, "", "x"],
     "ID": ["id1", 7, "0"],
 }
 CUSTOM_LEAVES = [1, "s", True, -3]
-WRONG = {"Int": "zz", "Float": "zz", "String": [1]}
+WRONG = {"Int": ["zz", 2147483648, -2147483649], "Float": ["zz", {"$float": "nan"}, {"$float": "inf"}, {"$float": "-inf"}],
+         "String": [[1]]}
 
 
 def ty_kind(t):
@@ -119,7 +120,7 @@ class World:
             vals = td["values"]
             return vals[mix(h, 1) % len(vals)]["value"]
         if self.mode == 1 and mix(h, 0) % 16 == 4 and name in WRONG:
-            return WRONG[name]
+            return WRONG[name][mix(h, 2) % len(WRONG[name])]
         table = LEAVES.get(name, CUSTOM_LEAVES)
         return table[mix(h, 1) % len(table)]
 
@@ -541,6 +542,8 @@ class PySpec:
                 raise SpecInternal("RuntimeError")
             return n
         if name == "Float":
+            if isf and raw["$float"] in ("nan", "inf", "-inf"):
+                raise SpecInternal("RuntimeError")      # X2: non-finite floats cannot be serialised
             if isf:
                 return raw
             if isinstance(raw, int) and not isinstance(raw, bool):
@@ -590,7 +593,7 @@ def py_spec_run(schema_d, docj, opname, variables, world):
     if root is None:
         return {"abort": "operation"}
     if op["op"] == "subscription":
-        return {"internal": "RuntimeError"}
+        return {"abort": "operation"}
     sp = PySpec(schema_d, docj, variables, world)
     try:
         data = sp.execute_selection_set(root, op["sels"], [])
